@@ -267,6 +267,29 @@ def _signal_case(case):
                                      "%s..., its own filter gives %s..." % (nn, mul, fr, np.asarray(out.values)[:3].tolist(), exp[:3].tolist())))
                 else:
                     nontriv.append("%s|regrid|%s|%g|%d|%s" % (kind, z, mul, nn, fr))
+        # a function-backed input handed to the antenna more than once (the same object, as a kernel would hand one pulse to
+        # several antennas): every response is that of the pristine signal, and the signal itself stays as it was
+        from pyrex.signals import FunctionSignal
+        vv = base[3]
+
+        def sampled(tq, vv=vv):
+            idx = np.rint((np.asarray(tq, dtype=float) - t[0]) / DT).astype(int)
+            ok = (idx >= 0) & (idx < N)
+            return np.where(ok, vv[np.clip(idx, 0, N - 1)], 0.0)
+        fsig = FunctionSignal(t, sampled, T.voltage)
+        ref, _ = dft.filtered_reference(vv, DT, resp, False)
+        exp = ref * dg * pg * eff
+        got = []
+        for rep_ in range(3):
+            n += 1
+            out = obj.apply_response(fsig, direction=d, polarization=p)
+            got.append(out)
+        for rep_, out in enumerate(got):        # evaluated only after all three calls
+            if not np.max(np.abs(np.asarray(out.values) - exp)) <= 1e-11:
+                fails.append(_sf("function-input-reused", kind, "response #%d to the same FunctionSignal object: %s..., expected %s..."
+                                 % (rep_, np.asarray(out.values)[:3].tolist(), exp[:3].tolist())))
+        if not np.array_equal(np.asarray(fsig.values), vv) or fsig.value_type != T.voltage:
+            fails.append(_sf("input-mutated", kind, "apply_response modified the FunctionSignal it was given"))
         # receive of an (s,p) pair == sum of the two responses, exactly one signal stored
         ant.clear()
         s1 = Signal(t, base[0], T.field)
